@@ -38,7 +38,48 @@ func timeOrdAtom(cond absint.Value) *absint.Atom {
 	default:
 		return nil
 	}
-	return &absint.Atom{Name: "tord(" + t.Args[0].Key() + "," + t.Args[1].Key() + ")", Domain: []string{"<", "=", ">"}, True: tr}
+	a, b := t.Args[0].Key(), t.Args[1].Key()
+	// one atom per pair whichever side the method is called on: end.After(t) is t.Before(end)
+	if b == "§t" || (a != "§t" && b < a) {
+		a, b = b, a
+		tr = []string{map[string]string{"=": "=", "<": ">", ">": "<"}[tr[0]]}
+	}
+	return &absint.Atom{Name: "tord(" + a + "," + b + ")", Domain: []string{"<", "=", ">"}, True: tr}
+}
+
+// timeBool: the truth value of a filter result that is a constant or a time comparison handed back as it is
+// (return !hasEnd || end.After(t)), under the given orderings of the day against the bounds.
+func timeBool(v absint.Value, ob, oe string) (bool, bool) {
+	if b, ok := boolOf(v); ok {
+		return b, true
+	}
+	t, ok := v.(*absint.Term)
+	if !ok {
+		return false, false
+	}
+	if t.Op == "!" && len(t.Args) == 1 {
+		b, ok := timeBool(t.Args[0], ob, oe)
+		return !b, ok
+	}
+	a := timeOrdAtom(v)
+	if a == nil {
+		return false, false
+	}
+	var o string
+	switch a.Name {
+	case "tord(§t,§begin)":
+		o = ob
+	case "tord(§t,§end)":
+		o = oe
+	default:
+		return false, false
+	}
+	for _, tv := range a.True {
+		if tv == o {
+			return true, true
+		}
+	}
+	return false, true
 }
 
 // C06-R1: the interval predicate, exhaustively over nil(begin) x nil(end) x ord(t,begin) x ord(t,end).
@@ -141,7 +182,6 @@ func ruleC06R1(c *core.Ctx) {
 					bad++
 					continue
 				}
-				got, isBool := boolOf(tm.Ret[0])
 				pb := x2.Possible(tm.State, "tord(§t,§begin)")
 				pe := x2.Possible(tm.State, "tord(§t,§end)")
 				if pb == nil {
@@ -156,6 +196,7 @@ func ruleC06R1(c *core.Ctx) {
 						want := (!hasB || ob != "<") && (!hasE || oe != ">")
 						val := fmt.Sprintf("%s ord(t,begin)=%s ord(t,end)=%s", disc, ob, oe)
 						c.Valuations = append(c.Valuations, val)
+						got, isBool := timeBool(tm.Ret[0], ob, oe)
 						if !isBool {
 							c.Violate(rule, fname, disc, c.P.Pos(tm.Pos), fmt.Sprintf("filter result %s is not decided by the orderings of the day against the bounds (%s)", tm.Ret[0].Key(), val), describe(x2, tm))
 							bad++
@@ -326,7 +367,7 @@ func ruleC06R2(c *core.Ctx) {
 			c.Valuations = append(c.Valuations, val)
 			processed := d["process"] == "1"
 			stop, stopKnown := boolOf(tm.Ret[0])
-			retNil := isNilConst(tm.Ret[1])
+			retNil := isNilConst(tm.Ret[1]) || nilnessOf(x, tm.State, tm.Ret[1]) == "nil"
 			if !errNil {
 				if processed {
 					c.Violate(rule, fname, "gate", c.P.Pos(tm.Pos), "a record is processed although the parser reported an error", describe(x, tm))
@@ -498,19 +539,22 @@ func intConst(v absint.Value) int64 {
 func init() {
 	register(&Property{
 		ID:    "C06",
-		Rules: []string{"C06-R1", "C06-R2", "C06-R3", "C06-R4", "C06-R5", "C06-R6", "C06-R7"},
+		Rules: []string{"C06-R1", "C06-R2", "C06-R3", "C06-R4", "C06-R5", "C06-R6", "C06-R7", "C06-R8", "C06-R9", "C15-R13"},
 		Explain: "Decides the comparison logic and wiring of period selection: C06-R1 the interval predicate evaluated exhaustively over nil(begin) x nil(end) x ord(day,begin) x ord(day,end) equals begin<=day<=end and is stateless; " +
 			"C06-R2 the per-record callback hands a record to the reporter exactly when there is no error and (no filter or the filter accepts), and a rejected record neither stops nor fails the walk; " +
 			"C06-R3 every walk over the log is handed a filter that derives (value flow) from GetIntervalNodeFilter applied to Options.FilterConfig; " +
 			"C06-R4 --begin/--end, declared on the application and on commands, are read from the context lineage root-first so the innermost position wins; " +
 			"C06-R5 the keywords today/yesterday/last7/last30 derive from the supplied now and nothing derives from time.Now; " +
 			"C06-R6 the summary window is time.Date(Year,Month,Day of the requested date, 0:00 / last instant, the date's own Location).; " +
-			"C06-R7 time-zone dependent calls (Local, In, UTC, ParseInLocation, LoadLocation, time.Local) occur only at the two allowed sites, so no date is moved to the process zone or across a daylight-saving switch.",
+			"C06-R7 time-zone dependent calls (Local, In, UTC, ParseInLocation, LoadLocation, time.Local) occur only at the two allowed sites, so no date is moved to the process zone or across a daylight-saving switch; " +
+			"C06-R8 the two bounds of a period never point at one variable that is assigned more than once (begin and end parsed into a shared temporary would both end as the last value parsed); " +
+			"C06-R9 on every successful path through Options.Load the date format and the current date that the period bounds were resolved with are the ones the path ends with (the bounds are resolved after --today, --date-format and the configuration file have been applied).",
 		NotDecided: "time-zone independence of date parsing itself, equality of a filtered run with the run on the filtered file",
 		Assumptions: []string{
 			"time.Time.Equal/After/Before form a total order (exactly one of <,=,> holds)",
 		},
 		Run: func(c *core.Ctx) {
+			ruleNoFlagSkipped(c, "C15-R13")
 			ruleC06R1(c)
 			ruleC06R2(c)
 			ruleC06R3(c)
@@ -518,8 +562,86 @@ func init() {
 			ruleC06R5(c)
 			ruleC06R6(c)
 			ruleZoneAPIs(c, "C06-R7")
+			ruleOwnBoundCells(c, "C06-R8")
+			ruleBoundsAfterSettings(c, "C06-R9")
 		},
 	})
+}
+
+// ruleOwnBoundCells is C06-R8: the bounds of a period are pointers; a variable whose address is stored into both
+// BeginningTime and EndTime and that is assigned more than once makes both bounds the value assigned last.
+func ruleOwnBoundCells(c *core.Ctx, rule string) {
+	cfgT := c.P.LookupType(filterPkg, "Config")
+	if !requireAnchor(c, rule, "filter.Config", cfgT != nil) {
+		return
+	}
+	type use struct {
+		fields map[string]string // bound → position of the store
+		fn     *ssa.Function
+	}
+	cells := map[*ssa.Alloc]*use{}
+	stores := 0
+	for _, fn := range c.P.Funcs {
+		for _, b := range fn.Blocks {
+			for _, in := range b.Instrs {
+				st, ok := in.(*ssa.Store)
+				if !ok {
+					continue
+				}
+				fa, ok := st.Addr.(*ssa.FieldAddr)
+				if !ok {
+					continue
+				}
+				pt, ok := fa.X.Type().Underlying().(*types.Pointer)
+				if !ok || !types.Identical(pt.Elem(), cfgT) {
+					continue
+				}
+				name := fieldName(fa.X.Type(), fa.Field)
+				if name != "BeginningTime" && name != "EndTime" {
+					continue
+				}
+				stores++
+				c.Universe(rule+" stores into the period bounds", core.FuncName(fn)+" "+name+" ("+c.P.Pos(st.Pos())+")")
+				v := st.Val
+				if ph, ok := v.(*ssa.Phi); ok && len(ph.Edges) > 0 {
+					v = ph.Edges[0]
+				}
+				a, ok := v.(*ssa.Alloc)
+				if !ok {
+					continue
+				}
+				if cells[a] == nil {
+					cells[a] = &use{fields: map[string]string{}, fn: fn}
+				}
+				cells[a].fields[name] = c.P.Pos(st.Pos())
+			}
+		}
+	}
+	if stores == 0 {
+		c.Undecide(rule, "filter", "universe", "-", "nothing stores into filter.Config's bounds", nil)
+		return
+	}
+	bad := 0
+	for a, u := range cells {
+		if len(u.fields) < 2 {
+			continue
+		}
+		writes := 0
+		if a.Referrers() != nil {
+			for _, r := range *a.Referrers() {
+				if st, ok := r.(*ssa.Store); ok && st.Addr == ssa.Value(a) {
+					writes++
+				}
+			}
+		}
+		if writes > 1 {
+			bad++
+			c.Violate(rule, core.FuncName(u.fn), "shared cell "+a.Comment, u.fields["EndTime"], fmt.Sprintf("the variable %s is assigned %d times and its address is stored as the beginning (%s) and as the end of the period: both bounds are whatever was parsed last, so --begin A --end B selects B..B", a.Comment, writes, u.fields["BeginningTime"]), nil)
+		}
+	}
+	if bad == 0 {
+		c.Discharge(rule, "filter", "own cells", "-", fmt.Sprintf("no variable that is assigned more than once is the target of both bounds (%d stores into the bounds looked at)", stores))
+	}
 }
 
 // C06-R6: `summary DATE` builds its one-day window from the calendar fields and
@@ -677,7 +799,7 @@ func ruleC06R3(c *core.Ctx) {
 		for _, b := range fn.Blocks {
 			for _, in := range b.Instrs {
 				ci, ok := in.(ssa.CallInstruction)
-				if !ok || ci.Common().StaticCallee() != walk {
+				if !ok || core.Callee(ci.Common()) != walk {
 					continue
 				}
 				n++
@@ -730,7 +852,7 @@ func ruleZoneAPIs(c *core.Ctx, rule string) {
 				what := ""
 				switch in := in.(type) {
 				case ssa.CallInstruction:
-					if cal := in.Common().StaticCallee(); cal != nil && zoneCalls[cal.String()] {
+					if cal := core.Callee(in.Common()); cal != nil && zoneCalls[cal.String()] {
 						what = cal.String()
 					}
 				case *ssa.UnOp:
@@ -766,6 +888,92 @@ func isTimeNowCall(v ssa.Value) bool {
 	if !ok {
 		return false
 	}
-	cal := call.Call.StaticCallee()
+	cal := core.Callee(&call.Call)
 	return cal != nil && cal.String() == "time.Now"
+}
+
+// ruleBoundsAfterSettings is C06-R9: Options.Load resolves --begin/--end (keywords relative to the current date,
+// dates in the configured layout) with GlobalConfig.Now and GlobalConfig.DateFormat as they stand at the end of
+// Load, that is after --today, --date-format, the environment and the configuration file have been applied.
+func ruleBoundsAfterSettings(c *core.Ctx, rule string) {
+	load := c.P.LookupMethod(optionsPkg, "Options", "Load")
+	get := c.P.LookupFunc(optionsPkg, "GetTimeFromString")
+	if !requireAnchor(c, rule, "options.Options.Load", load != nil) || !requireAnchor(c, rule, "options.GetTimeFromString", get != nil) {
+		return
+	}
+	fname := core.FuncName(load)
+	recv := load.Params[0].Name()
+	nowLoc := "L:§" + recv + "·GlobalConfig·Now"
+	fmtLoc := "L:§" + recv + "·GlobalConfig·DateFormat"
+	x := newExec(c)
+	x.MaxDepth = 6
+	x.Hooks.Inline = func(callee *ssa.Function, depth int) bool { return callee != get && c.P.InScope(callee) }
+	var bad []string
+	resolved := 0
+	x.Hooks.Call = func(x *absint.Exec, s *absint.State, site ssa.CallInstruction, callee *ssa.Function, fnv absint.Value, args []absint.Value) (absint.Value, bool) {
+		if v, ok := flagStub(x, s, site, callee, args); ok {
+			return v, true
+		}
+		if callee == nil {
+			return nil, false
+		}
+		switch {
+		case callee == get && len(args) == 3:
+			resolved++
+			curNow := x.Load(s, absint.Ptr{Loc: nowLoc}, get.Params[0].Type())
+			curFmt := x.Load(s, absint.Ptr{Loc: fmtLoc}, get.Params[1].Type())
+			if args[0].Key() != curNow.Key() {
+				bad = append(bad, fmt.Sprintf("%s: a period bound is resolved relative to %s, not to the options' current date", c.P.Pos(site.Pos()), args[0].Key()))
+			}
+			if args[1].Key() != curFmt.Key() {
+				bad = append(bad, fmt.Sprintf("%s: a period bound is parsed with layout %s, not with the options' date format", c.P.Pos(site.Pos()), args[1].Key()))
+			}
+			s.SetData("now", curNow.Key())
+			s.SetData("fmt", curFmt.Key())
+			return &absint.Tuple{Elems: []absint.Value{x.Fresh(s, "bound"), x.Fresh(s, "bounderr")}}, true
+		case callee.String() == "os.Stat" || callee.String() == "os.Lstat":
+			return &absint.Tuple{Elems: []absint.Value{absint.Sym{Name: "info"}, absint.Sym{Name: "staterr"}}}, true
+		case strings.HasSuffix(callee.String(), "gcfg.v1.ReadInto"):
+			return x.Fresh(s, "readerr"), true
+		case callee.String() == "os.Open":
+			return &absint.Tuple{Elems: []absint.Value{x.Fresh(s, "file"), x.Fresh(s, "openerr")}}, true
+		}
+		return nil, false
+	}
+	x.Track = func(atom string) bool {
+		return strings.Contains(atom, `"date-format"`) || strings.Contains(atom, `"today"`) || strings.HasPrefix(atom, "nil(")
+	}
+	terms := x.Run(x.NewState(load, nil, nil))
+	if !account(c, x, rule, load) {
+		return
+	}
+	checked := 0
+	for _, tm := range terms {
+		if tm.Kind != "return" || len(tm.Ret) != 1 || nilnessOf(x, tm.State, tm.Ret[0]) == "nonnil" || tm.State.Data["now"] == "" {
+			continue
+		}
+		checked++
+		endNow := x.Load(tm.State, absint.Ptr{Loc: nowLoc}, get.Params[0].Type())
+		endFmt := x.Load(tm.State, absint.Ptr{Loc: fmtLoc}, get.Params[1].Type())
+		if endNow.Key() != tm.State.Data["now"] {
+			bad = append(bad, fmt.Sprintf("Load can succeed with period bounds resolved relative to %s while the current date ends as %s (%s): with --today the keywords today/yesterday/last7/last30 still count from the real clock", tm.State.Data["now"], endNow.Key(), x.Valuation(tm.State)))
+		}
+		if endFmt.Key() != tm.State.Data["fmt"] {
+			bad = append(bad, fmt.Sprintf("Load can succeed with period bounds parsed with layout %s while the date format ends as %s (%s): --begin/--end written in the configured layout are misread or rejected", tm.State.Data["fmt"], endFmt.Key(), x.Valuation(tm.State)))
+		}
+	}
+	bad = uniq(bad)
+	if resolved == 0 || checked == 0 {
+		c.Undecide(rule, fname, "bounds-after-settings", c.P.Pos(load.Pos()), fmt.Sprintf("no successful path through Options.Load that resolves a period bound was explored (%d calls of GetTimeFromString, %d paths)", resolved, checked), nil)
+		return
+	}
+	if len(bad) == 0 {
+		c.Discharge(rule, fname, "bounds-after-settings", c.P.Pos(load.Pos()), fmt.Sprintf("on all %d successful paths that resolve a bound, the current date and the date format used are the ones the path ends with", checked))
+	}
+	for i, m := range bad {
+		if i >= 3 {
+			break
+		}
+		c.Violate(rule, fname, "bounds-after-settings", c.P.Pos(load.Pos()), m, nil)
+	}
 }
